@@ -13,6 +13,9 @@ ap.add_argument('prop'); ap.add_argument('worktree'); ap.add_argument('seed_id')
 ap.add_argument('--props', default=None)
 ap.add_argument('--demo-flags', default='')
 ap.add_argument('--skip-ctest', action='store_true')
+ap.add_argument('--use-hooks', action='store_true')
+ap.add_argument('--demo', default='demo.cpp')
+ap.add_argument('--runs', type=int, default=1)
 ap.add_argument('--demo-timeout', type=int, default=600)
 a = ap.parse_args()
 wt = a.worktree
@@ -29,28 +32,32 @@ def sh(cmd, **kw):
 p = sh('git -C /repo apply --check %s' % patch)
 assert p.returncode == 0, 'patch does not apply to /repo: ' + p.stdout
 # 2. demo both ways
-demo_src = os.path.join(out, 'demo.cpp')
+demo_src = os.path.join(out, a.demo)
 assert os.path.exists(demo_src), 'no demo.cpp'
 scratch = '/var/tmp/seedchk.%d' % os.getpid()
 os.makedirs(scratch)
 try:
-    shutil.copytree('/repo/include', scratch + '/inc_clean')
-    shutil.copytree('/repo/include', scratch + '/inc_patched')
-    sh('cd %s && mkdir p && cp -r inc_patched p/include && cd p && git init -q . && git apply %s' % (scratch, patch))
+    for name in ('clean', 'patched'):
+        d = '%s/%s' % (scratch, name)
+        os.makedirs(d)
+        shutil.copytree('/repo/include', d + '/include')
+        sh('cd %s && git init -q .' % d)
+        if name == 'patched':
+            r = sh('cd %s && git apply %s' % (d, patch))
+            assert r.returncode == 0, r.stdout
+        hooks = os.path.join(out, 'demo_hooks.diff')
+        if os.path.exists(hooks) and a.use_hooks:
+            r = sh('cd %s && git apply %s' % (d, hooks))
+            assert r.returncode == 0, 'demo hooks do not apply (%s): %s' % (name, r.stdout)
     flags = '-std=c++17 -O1 -g -DNDEBUG -DYAKUSHIMA_EPOCH_TIME=40 -DYAKUSHIMA_MAX_PARALLEL_SESSIONS=16 -DYAKUSHIMA_LINUX ' + a.demo_flags
-    hooks = os.path.join(out, 'demo_hooks.diff')
-    for name, inc in (('clean', scratch + '/inc_clean'), ('patched', scratch + '/p/include')):
-        if os.path.exists(hooks):
-            # demo-only pause points: applied on top of both trees
-            d = os.path.dirname(inc)
-            sh('cd %s && (test -d .git || git init -q .) ; git apply %s' % (d if name == 'patched' else scratch, hooks)
-               if name == 'patched' else 'cd %s && mkdir -p c && rm -rf c/include && cp -r inc_clean c/include && cd c && git init -q . && git apply %s' % (scratch, hooks))
-            if name == 'clean':
-                inc = scratch + '/c/include'
-        b = sh('g++ %s -I%s %s -o %s/demo_%s -lglog -ltbb -lpthread' % (flags, inc, demo_src, scratch, name))
+    for name in ('clean', 'patched'):
+        b = sh("g++ %s -I%s/%s/include %s -o %s/demo_%s -lglog -ltbb -lpthread" % (flags, scratch, name, demo_src, scratch, name))
         assert b.returncode == 0, 'demo does not build (%s): %s' % (name, b.stdout[-1500:])
     t0 = time.time()
-    rp = sh('cd %s && timeout %d ./demo_patched' % (scratch, a.demo_timeout))
+    for i in range(a.runs):
+        rp = sh('cd %s && timeout %d ./demo_patched' % (scratch, a.demo_timeout))
+        if rp.returncode != 0:
+            break
     rc = sh('cd %s && timeout %d ./demo_clean' % (scratch, a.demo_timeout))
     meta['demo_patched_rc'] = rp.returncode
     meta['demo_clean_rc'] = rc.returncode
